@@ -74,6 +74,12 @@ class C15(HsProp):
             if k % 7 == 0:
                 # trailing bytes in the same chunk as the end of the head
                 out.append(gen_hs.hs_case('hj%d' % k, 'none', ['r'], gen_hs.rds_of(gen_hs.segment(rng, req + frame, rng.choice([1, 2]))), [], []))
+            if k % 11 == 0:
+                for ti, tail_ in enumerate((b'\r\n', b'\n', b' ', b'\x00', b'x', b'\r\n\r\n', b'GET / HTTP/1.1\r\n\r\n')):
+                    out.append(gen_hs.hs_case('ht%d_%d' % (k, ti), 'none', ['r'], ['d:' + hx(req + tail_)], [], []))
+            if k % 3 == 1:
+                m_ = gen_hs.mutate_head(rng, req)
+                out.append(gen_hs.hs_case('hm%d' % k, cb, ['r'], ['d:' + hx(m_), 'd:' + hx(frame)], [], []))
             k += 1
         # keys: accept computation over many key strings
         for i in range(60 if quick else 600):
@@ -133,6 +139,8 @@ class C16(HsProp):
                 data = resp + frame1 + frame2
                 segs = gen_hs.segment(rng, data, rng.choice([1, 1, 2, 3, 6]))
                 extra = [(b'Origin', b'http://o.example')] if k % 5 == 0 else []
+                if k % 4 == 1:
+                    out.append(gen_hs.hc_case('hm%d' % k, b'ws://example.com/m', subs, [], ['r'], ['d:' + hx(gen_hs.mutate_head(rng, resp)), 'd:' + hx(frame1)])); k += 1
                 out.append(gen_hs.hc_case('hc%d' % k, b'ws://example.com/s?q=%d' % k, subs, extra, ['r', 'r', 'wt:6869', 'f'],
                                           gen_hs.rds_of(segs, 0.2, rng), gen_hs.WPATS[k % len(gen_hs.WPATS)] if k % 6 == 0 else [],
                                           gen_hs.FPATS[k % len(gen_hs.FPATS)] if k % 7 == 0 else []))
@@ -259,6 +267,41 @@ class C17(HsProp):
                     rds.append('d:' + hx(c))
                 out.append(gen_hs.hs_case('endw%d_%s' % (period, name), 'none', ['r'], rds, [], [])); k += 1
                 out.append(gen_hs.hc_case('endcw%d_%s' % (period, name), b'ws://example.com/', ops=['r'], rds=rds)); k += 1
+        # every transport outcome kind at every read index of the reading stage, both roles
+        for gi, (role_, head) in enumerate((('s', good), ('c', resp))):
+            segs = gen_hs.segment(rng, head, 4)
+            for idx in range(len(segs) + 1):
+                for kind in ('eof', 'e:reset', 'e:intr', 'e:other', 'e:ueof', 'e:timedout', 'd:-'):
+                    rds = ['d:' + hx(c) for c in segs[:idx]] + [kind] + ['d:' + hx(c) for c in segs[idx:]]
+                    if role_ == 's':
+                        out.append(gen_hs.hs_case('rk%d' % k, 'none', ['r'], rds, [], [])); k += 1
+                    else:
+                        out.append(gen_hs.hc_case('rk%d' % k, b'ws://example.com/', ops=['r'], rds=rds)); k += 1
+        # the transport offers more than one handshake chunk at once: the library must take at most 4096 bytes per read
+        long_ = b'GET /chat HTTP/1.1\r\nX-Long: ' + b'a' * 300000
+        for size in (8192, 65536, 300000):
+            out.append(gen_hs.hs_case('bigchunk%d' % k, 'none', ['r'], ['d:' + hx(long_[:size])], [], [])); k += 1
+            out.append(gen_hs.hc_case('bigchunkc%d' % k, b'ws://example.com/', ops=['r'], rds=['d:' + hx(b'HTTP/1.1 101 X\r\nX-Long: ' + b'a' * size)])); k += 1
+        # valid heads of 4096 bytes and more (cookie sized), whole / in full chunks / dripped in 1000-byte pieces
+        for total in (4095, 4096, 4097, 8192, 20000):
+            head = gen_hs.big_valid_request(total)
+            for chunks in ([head], [head[i:i + 4096] for i in range(0, len(head), 4096)], [head[i:i + 1000] for i in range(0, len(head), 1000)]):
+                out.append(gen_hs.hs_case('sg9_%d' % k, 'none', ['r'], gen_hs.rds_of(chunks), [], [])); k += 1
+        # mixed-size endless heads: the arithmetic cases below are also run against the real handshake
+        ac_lists = []
+        for i in range(12 if quick else 120):
+            n = rng.randint(60, 140)
+            pattern = rng.choice(['bigthen1', 'onesthen128', 'alt', 'rand'])
+            if pattern == 'bigthen1': sizes = [rng.choice([200, 1000, 4096])] * rng.randint(3, 10) + [1] * n
+            elif pattern == 'onesthen128': sizes = [1] * 64 + [128] * n
+            elif pattern == 'alt': sizes = [rng.choice([1, 255])] * 1 + [1, 255] * (n // 2)
+            else: sizes = [rng.choice([1, 50, 127, 128, 129, 300]) for _ in range(n)]
+            ac_lists.append(sizes)
+            pos = 0; chunks = []
+            for sz in sizes:
+                chunks.append(long_[pos:pos + sz]); pos += sz
+            out.append(gen_hs.hs_case('mix%d' % k, 'none', ['r'], gen_hs.rds_of(chunks), [], [])); k += 1
+            out.append('AC acm%d %s' % (k, ','.join(map(str, sizes)))); k += 1
         # parser assumption tests on every prefix
         for tag, head in (('req', good), ('req', junk), ('resp', resp.replace(gen_hs.ACCEPT_MARK, b'x' * 28))):
             step = 1 if not quick else 3
@@ -337,6 +380,10 @@ def _c16_nohook_monitor(self, case_line, trace):
         return 'key-shape: %s of %d request keys are base64 of 16 bytes' % (kv['wellformed16'], n)
     if int(kv['distinct']) != n:
         return 'key-not-fresh: only %s distinct Sec-WebSocket-Key values in %d requests' % (kv['distinct'], n)
+    if int(kv.get('repeated', 0)) > 0:
+        return 'key-structure: %s of %d keys repeat a group of their own characters (not 16 independent random bytes)' % (kv['repeated'], n)
+    if int(kv.get('minposvals', 64)) < (20 if n <= 256 else 50):
+        return 'key-structure: a character position of the key takes only %s distinct values over %d requests' % (kv['minposvals'], n)
     return None
 C16.nohook_cases = _c16_nohook_cases
 C16.nohook_monitor = _c16_nohook_monitor
